@@ -1,6 +1,8 @@
 package props
 
 import (
+	"time"
+	"crypto/x509"
 	"fmt"
 	"strings"
 
@@ -205,6 +207,14 @@ func runC01(c *core.Ctx) {
 			c01Rotation(c, o)
 		}
 	}
+	// the clock near the edges of the trusted certificate's validity period: whatever an implementation decides about a
+	// certificate that is just about (in)valid, it still may only return content the key signed
+	for i := 0; i < c.Pick(400, 12000); i++ {
+		if mine() {
+			c01CertEdge(c, o, actx)
+		}
+	}
+	fx.SetNow(fx.Epoch)
 	// depth 2-3
 	n := c.Pick(12000, 1200000)
 	for i := 0; i < n; i++ {
@@ -428,4 +438,55 @@ func trustReconfigure(c *core.Ctx, sp *saml.ServiceProvider, roots, retired []st
 		how = "descriptor-slice-replaced-in-place"
 	}
 	return next, retired, mode, how
+}
+
+var c01EdgePair *fx.KeyPair
+
+// c01CertEdge delivers genuine and attacked messages signed under a certificate that is valid from Epoch-5min to
+// Epoch+5min, at clock positions seconds and minutes around both edges.
+func c01CertEdge(c *core.Ctx, o *so.Oracle, actx *attack.Ctx) {
+	if c01EdgePair == nil {
+		c01EdgePair = fx.VariantPair(fx.K("idp_s1"), "idp_s1_edge", func(t *x509.Certificate) {
+			t.NotBefore, t.NotAfter = fx.Epoch.Add(-5*time.Minute), fx.Epoch.Add(5*time.Minute)
+		})
+	}
+	kp := c01EdgePair
+	sp := so.NewSP("meta-one-signing", fx.K("sp_rsa2048"))
+	sp.IDPMetadata.IDPSSODescriptors[0].KeyDescriptors = []saml.KeyDescriptor{{Use: "signing", KeyInfo: saml.KeyInfo{X509Data: saml.X509Data{X509Certificates: []saml.X509Certificate{{Data: kp.CertB64()}}}}}}
+	edge := []time.Duration{-5 * time.Minute, 5 * time.Minute}[c.Rng.Intn(2)]
+	off := edge + []time.Duration{-time.Minute, -time.Second, time.Second, 30 * time.Second, time.Minute, 2*time.Minute + 59*time.Second, 4 * time.Minute, time.Hour, -2 * time.Minute, -4 * time.Minute}[c.Rng.Intn(10)]
+	inside := off > -5*time.Minute && off < 5*time.Minute
+	// the message itself is issued "now" so that only the certificate's validity is at stake
+	fx.SetNow(fx.Epoch.Add(off))
+	o.Reset()
+	layout := c.Rng.Intn(3)
+	ael := o.Assertion(so.AssertionSpec{RequestID: "req-1", Now: fx.Now()}).Element()
+	var err error
+	if layout >= 1 {
+		if ael, err = o.Sign(ael, kp, ""); err != nil {
+			return
+		}
+	}
+	rel := so.ResponseEl(o.Response("req-1", fx.Now()), ael)
+	if layout != 1 {
+		if rel, err = o.Sign(rel, kp, ""); err != nil {
+			return
+		}
+	}
+	doc := so.Bytes(rel)
+	var ops []string
+	if !inside {
+		ops = append(ops, "clock-outside-certificate-validity:"+off.String())
+	}
+	if c.Rng.Intn(4) != 0 {
+		saveGenuine := actx.Genuine
+		actx.Genuine = kp
+		var ds []string
+		doc, ds = attack.Apply(actx, doc, 1)
+		actx.Genuine = saveGenuine
+		ops = append(ops, ds...)
+	}
+	b := c01Base{trust: so.Trust{Name: fmt.Sprintf("certificate-valid-%v..%v,clock%+v", -5*time.Minute, 5*time.Minute, off), Roots: []string{kp.Name}}, signer: kp.Name, layout: map[int]int{0: 0, 1: 1, 2: 2}[layout], nA: 1}
+	c.Count("deliveries_near_certificate_validity_edges")
+	c01Deliver(c, o, sp, b, c.Rng.Intn(2), doc, ops)
 }
